@@ -252,3 +252,30 @@ func init() {
 		return strings.Join(out, "\t")
 	}
 }
+
+func init() {
+	// aahist <verb> <text>: several steps of the formatter tool in ONE process (no reset in between)
+	//   parse <text> -> the reply of parserules
+	//   fmt <text>   -> ok <text>: every paragraph parsed, then Merge().Sort().Format().String() as cmd/aa does
+	suites["aahist"] = func(f []string) string {
+		if len(f) < 2 {
+			return "err\tbad-op"
+		}
+		if f[0] == "parse" {
+			return suites["parserules"](f[1:])
+		}
+		aa.VerifSetInHeader(false)
+		defer aa.VerifSetInHeader(false)
+		paras, _, err := aa.ParseRules(unesc(f[1]))
+		if err != nil {
+			return "err"
+		}
+		var sb strings.Builder
+		for _, p := range paras {
+			aa.IndentationLevel = 0
+			sb.WriteString(p.Merge().Sort().Format().String())
+			sb.WriteString("\n")
+		}
+		return "ok\t" + esc(sb.String())
+	}
+}
